@@ -126,6 +126,11 @@ zix_file_equals(ZixAllocator* const allocator,
       }
     }
 
+    // The first file has ended, so must the second (sizes may not tell)
+    if (match && read(fd_b, buf_b, size) != 0) {
+      match = false;
+    }
+
     // Release the pages (keeping errno, which tells if reading failed)
     const int read_errno = errno;
     zix_aligned_free(allocator, page_b);
